@@ -109,6 +109,16 @@ def run(rep, tier):
         rep.saw(g, len(g.events))
         rb = [e.block for e in g.calls() if re.search(r"(HashSet|BTreeSet|HashMap|BTreeMap|Vec)(::)?<.*>::(remove|clear|retain|take|pop_first|pop_last|split_off|drain|extract_if)$", e.callee or "")
               and "dirty_nodes" in recv_fields(g, e)]
+        # the removal may sit in a closure handed to an iterator adaptor (`ids.iter().for_each(|id| { dirty.remove(id); })`):
+        # the retirement then happens where that closure is consumed
+        RM = r"(HashSet|BTreeSet|HashMap|BTreeMap|Vec)(::)?<.*>::(remove|clear|retain|take|pop_first|pop_last|split_off|drain|extract_if)$"
+        for k_ in prog.closures_of(g):
+            if k_.coroutine:
+                continue
+            if any(re.search(RM, e.callee or "") and ("dirty_nodes" in recv_fields(k_, e) or "dirty" in recv_fields(k_, e)) for e in k_.calls()):
+                for e in g.calls():
+                    if any(o[0] == "create" and o[1].cid == k_.id for a in e.args for o in g.slice_back_op(a, through=lambda ev: False)):
+                        rb.append(e.block)
         if fname == "store_dirty_nodes":
             # only removals that follow the write callback have an I/O window behind them; the synchronous retirement of a
             # mark whose node no longer exists (no external write, structural lock held throughout) needs no re-check
